@@ -980,6 +980,8 @@ class Repo:
         if len(vals) > 1 and all(not isinstance(v, (ast.AnnAssign, _ForElem)) for v in vals) and len({unparse(v) for v in vals}) == 1 \
                 and isinstance(vals[0], (ast.Attribute, ast.Name)):
             return vals[0]  # re-bound to the same attribute chain every time
+        if len(vals) == 1 and isinstance(vals[0], _ForElem):
+            return None
         if len(vals) == 1 and not isinstance(vals[0], ast.AnnAssign):
             return vals[0]
         if len(vals) == 1 and isinstance(vals[0], ast.AnnAssign):
